@@ -283,4 +283,28 @@ def ReadTotalXrff (cfg : Cfg) : Prop :=
 def LettersOnly (o : NumOracle F) : Prop := ∀ s : Str, s.length = 1 → s.all isAlpha = true → o.isNum s = false
 
 
+theorem readCsvRecs_valid (cfg : Cfg) (o : NumOracle F) (outIdx : Option Nat) (hasHdr : Bool)
+    (recs : List (List Str)) (df : DF F) (h : readCsvRecs cfg o outIdx hasHdr recs = .ok df) :
+    Valid df ∧ df.examples ≠ [] ∧ EqualInputs df := by
+  unfold readCsvRecs at h
+  cases hf : List.foldlM (csvStep cfg o outIdx hasHdr) ({} : St F) recs with
+  | error e => simp [hf, bind, Except.bind] at h
+  | ok st =>
+    simp only [hf, bind, Except.bind] at h
+    cases hv : isValid st.df with
+    | error e => simp [hv] at h
+    | ok v =>
+      simp only [hv] at h
+      split at h
+      · cases h
+      · next hc =>
+        simp only [pure, Except.pure, Except.ok.injEq] at h
+        subst h
+        simp only [Bool.or_eq_true, Bool.not_eq_eq_eq_not, Bool.not_true, not_or, Bool.not_eq_false,
+          Bool.not_eq_true] at hc
+        have hvalid : Valid st.df := by unfold Valid; rw [hv, hc.1]
+        refine ⟨hvalid, ?_, valid_equalInputs _ hvalid⟩
+        intro hnil
+        simp [hnil] at hc
+
 end Vita.C10
